@@ -630,3 +630,88 @@ pub fn mixed(rng: &mut Rng, name: &str, i: usize) -> Def {
         _ => f11_literal(rng, name),
     }
 }
+
+/// F9 callbacks: a small base definition with recording callbacks of every supported return type.
+pub fn f9_callbacks(rng: &mut Rng, name: &str) -> Def {
+    let mut def = match rng.below(4) {
+        0 => f2_keywords(rng, name),
+        1 => f6_loops(rng, name),
+        _ => f1_soup(rng, name),
+    };
+    def.family = "F9".into();
+    def.error = match rng.below(3) {
+        0 => ErrKind::Unit,
+        1 => ErrKind::Custom,
+        _ => ErrKind::CustomCb,
+    };
+    // keep keyword lexers small
+    if def.pats.len() > 10 {
+        let keep: Vec<Pat> = def.pats.iter().filter(|p| p.kind == PatKind::Skip).cloned().chain(def.pats.iter().filter(|p| p.kind != PatKind::Skip).take(8).cloned()).collect();
+        def.pats = keep;
+        // re-number variants
+        let mut nv = 0;
+        for p in def.pats.iter_mut() {
+            if p.kind != PatKind::Skip {
+                p.variant = nv;
+                nv += 1;
+            }
+        }
+        def.variants = vec![VarKind::Unit; nv];
+    }
+    for v in def.variants.iter_mut() {
+        *v = VarKind::Unit;
+    }
+    let unit_variants: Vec<usize> = (0..def.variants.len()).collect();
+    let mut any = false;
+    let n = def.pats.len();
+    for i in 0..n {
+        let kind = def.pats[i].kind;
+        if kind == PatKind::Skip {
+            if rng.chance(1, 2) {
+                let ret = *rng.pick(CB_SKIP_KINDS);
+                def.pats[i].cb = Some(Cb { ret, inline: rng.chance(1, 3), bump: rng.chance(1, 5), salt: rng.below(1000) as u32, target: 0 });
+                def.pats[i].cb_positional = rng.chance(1, 2);
+                any = true;
+            }
+            continue;
+        }
+        if !rng.chance(3, 4) {
+            if rng.chance(1, 4) {
+                let v = def.pats[i].variant;
+                def.variants[v] = VarKind::Slice;
+            }
+            continue;
+        }
+        any = true;
+        let value = rng.chance(2, 5);
+        let ret = if value { *rng.pick(CB_VAL_KINDS) } else { *rng.pick(CB_UNIT_KINDS) };
+        let v = def.pats[i].variant;
+        if value {
+            def.variants[v] = VarKind::U64;
+        }
+        def.pats[i].cb = Some(Cb { ret, inline: rng.chance(1, 3), bump: rng.chance(1, 4), salt: rng.below(1000) as u32, target: v });
+        def.pats[i].cb_positional = rng.chance(1, 2);
+    }
+    // token-returning callbacks emit some *unit* variant (possibly another one)
+    let units: Vec<usize> = unit_variants.into_iter().filter(|&v| def.variants[v] == VarKind::Unit).collect();
+    for p in def.pats.iter_mut() {
+        if let Some(cb) = p.cb.as_mut() {
+            if matches!(cb.ret, CbRet::Tok | CbRet::ResTok | CbRet::FilterTok | CbRet::FilterResTok) {
+                if units.is_empty() {
+                    cb.ret = CbRet::Unit;
+                } else {
+                    cb.target = *rng.pick(&units);
+                }
+            }
+        }
+    }
+    if !any {
+        if let Some(p) = def.pats.iter_mut().find(|p| p.kind != PatKind::Skip) {
+            p.cb = Some(Cb { ret: CbRet::Bool, inline: false, bump: false, salt: 7, target: p.variant });
+            let v = p.variant;
+            def.variants[v] = VarKind::Unit;
+        }
+    }
+    def.normalize();
+    def
+}
